@@ -5,7 +5,46 @@ use fn_graph_replay::*;
 use futures::stream::StreamExt;
 use std::task::Poll;
 
+/// fan-in of `width` functions into one sink (forward) / fan-out streamed in reverse: take every ready function, see
+/// Pending, drop ALL FnRefs between two polls, then poll only when a wake-up was signalled: the sink must be yielded
+fn wide(width: usize, reverse: bool) {
+    let mut b = FnGraphBuilder::new();
+    let ids: Vec<_> = (0..=width).map(|i| b.add_fn(Acc { id: i, reads: vec![], writes: vec![] })).collect();
+    for i in 0..width { if reverse { b.add_logic_edge(ids[width], ids[i]).unwrap(); } else { b.add_logic_edge(ids[i], ids[width]).unwrap(); } }
+    let g = b.build();
+    let (w, cnt) = counting_waker();
+    let mut cx = ctx(&w);
+    let opts = if reverse { fn_graph::StreamOpts::new().rev() } else { fn_graph::StreamOpts::new() };
+    let mut s = Box::pin(g.stream_with(opts));
+    let mut held = vec![];
+    let mut yielded = 0usize;
+    let mut polls_without_wake = 0;
+    loop {
+        let before = wakes(&cnt);
+        match s.poll_next_unpin(&mut cx) {
+            Poll::Ready(Some(r)) => { yielded += 1; held.push(r); }
+            Poll::Ready(None) => break,
+            Poll::Pending => {
+                if held.is_empty() {
+                    if wakes(&cnt) == before {
+                        polls_without_wake += 1;
+                        if polls_without_wake > 1 { println!("VIOLATION: width {width} reverse={reverse}: every FnRef is dropped, the stream is Pending after yielding {yielded} of {} functions and no wake-up was signalled", width + 1); std::process::exit(1); }
+                    }
+                } else {
+                    polls_without_wake = 0;
+                    let w0 = wakes(&cnt);
+                    held.clear();
+                    if wakes(&cnt) == w0 { println!("VIOLATION: width {width} reverse={reverse}: {} FnRefs dropped, no wake-up signalled", yielded); std::process::exit(1); }
+                }
+            }
+        }
+        if yielded > width + 1 { println!("VIOLATION: width {width}: more items than functions"); std::process::exit(1); }
+    }
+    if yielded != width + 1 { println!("VIOLATION: width {width} reverse={reverse}: stream ended after {yielded} of {} functions", width + 1); std::process::exit(1); }
+}
+
 fn main() {
+    for width in [3usize, 100, 128, 129, 200, 300, 1000] { wide(width, false); wide(width, true); }
     let mut b = FnGraphBuilder::new();
     let [a, bb, c] = b.add_fns([
         Acc { id: 0, reads: vec![], writes: vec![] },
